@@ -211,6 +211,24 @@ func runC02NamedInitializers(c *eng.Ctx, next func() (int, bool)) {
 				wg.Wait()
 				c.R.Count("named_initializer_resolutions", int64(5*(goroutines+2)))
 			}
+			// the collection is edited while the provider lives on (the next deployment is being
+			// prepared): a built provider is unaffected - one more scope of it runs every
+			// initializer once, like the ones before
+			if k%2 == 0 {
+				coll.RemoveKeyed(unitT, "check")
+				if k%4 == 0 {
+					_ = coll.AddScoped(niCheck, godi.Name("check2"))
+				}
+				if s3, e := prov.CreateScope(nil); e == nil {
+					scopes = append(scopes, s3)
+					created++
+					use(s3)
+					use(s3)
+					c.R.Count("named_initializer_scopes_after_collection_edit", 1)
+				} else {
+					viol("scope-creation-failed", "after-collection-edit", fmt.Sprintf("CreateScope on a live provider failed after its collection was edited: %v", e))
+				}
+			}
 			w.mu.Lock()
 			defer w.mu.Unlock()
 			for _, init := range []string{"warmup", "check", "anonymous", "after-warmup"} {
